@@ -187,9 +187,33 @@ class WalkCase:
                         push(("W", i))
         return out
 
-    def find_injection(self, ev, path, kind, fault):
-        """(syscall, errno, ordinal) for making `fault` happen at `path`, located in the trace `ev` of a run"""
+    def find_injection(self, ev, path, kind, fault, late=False, size=None):
+        """(syscall, errno, ordinal) for making `fault` happen at `path`, located in the trace `ev` of a run.
+        late (file read errors only): not the first read of the file but the first read of its SECOND pass - the file is read once for its
+        hash and, when it has to be stored, once more while its bytes go into the archive (the first read after `size` bytes, or an end of file, were
+        delivered: the reader asks for exactly the size it was told)"""
         main = ev[0]["pid"]
+        if late and fault == "readerr" and kind == "file":
+            n, seen_eof, cum = 0, False, 0
+            for e in ev:
+                if e["pid"] != main or e["name"] != "read":
+                    continue
+                n += 1
+                try:
+                    mine = trace.fd_path(e["args"][0]) == path
+                except (IndexError, TypeError):
+                    mine = False
+                if not mine:
+                    continue
+                if seen_eof:
+                    return "read", "EIO", n
+                try:
+                    cum += max(0, int(e["ret"]))
+                except ValueError:
+                    pass
+                if e["ret"] == "0" or (size is not None and cum >= size):
+                    seen_eof = True
+            return None
         counts = {}
         want = []
         if fault == "vanish":
